@@ -74,6 +74,19 @@ class ExploreCtx(BaseCtx):
             chars.append(alphabet[k])
         return ''.join(chars)
 
+    def symstr(self, name, maxlen, alphabet):
+        """A CrossHair symbolic str (solver sequence) of length <= maxlen over the alphabet."""
+        from crosshair.core import proxy_for_type
+        with NoTracing():
+            s = proxy_for_type(str, 'v_' + name)
+        self.vars.append((name, 'str', s))
+        if len(s) > maxlen:
+            sc.prune()
+        for ch in s:
+            if ch not in alphabet:
+                sc.prune()
+        return s
+
     # ---- bit streams
     def source(self, label, nbits, **opts):
         from vlib.model import bitstring as M
@@ -119,6 +132,10 @@ class ExploreCtx(BaseCtx):
     def realize_record(self, ret):
         rec = {'violation': sc.realize_any(ret), 'inputs': {}, 'sources': {}, 'notes': {}}
         for name, kind, term in self.vars:
+            if kind == 'str':
+                from crosshair.core import deep_realize
+                rec['inputs'][name] = deep_realize(term)
+                continue
             v = sc.model_value(term)
             rec['inputs'][name] = bool(v) if kind == 'bool' else v
         with NoTracing():
@@ -256,6 +273,12 @@ class ReplayCtx(BaseCtx):
     def str(self, name, maxlen, alphabet):
         n = self.choice(name + '_len', maxlen + 1)
         return ''.join(alphabet[self.choice('%s_%d' % (name, i), len(alphabet))] for i in range(n))
+
+    def symstr(self, name, maxlen, alphabet):
+        s = self.record['inputs'][name]
+        if len(s) > maxlen or any(c not in alphabet for c in s):
+            raise ReplayOutOfBound()
+        return s
 
     def source(self, label, nbits, **opts):
         s = self.record['sources'].get(label, {'nbits': nbits, 'ones': []})
